@@ -25,6 +25,8 @@ def _case_text(case):
         return ""
     if "input" in case:
         return case["input"]
+    if "progs" in case:
+        return "\n".join(s for _, s in case["progs"])
     files = case.get("files")
     if isinstance(files, dict):
         return "\n".join(files.values())
